@@ -39,6 +39,7 @@ type varInfo struct {
 	MayWrite  bool   `json:"may_be_written_through_reference"`
 	Accesses  int    `json:"access_points"`
 	HasInit   bool   `json:"has_initializer"`
+	Sync      bool   `json:"synchronisation_object"`
 	DeclFile  string `json:"file"`
 	obj       *types.Var
 	initExpr  ast.Expr
@@ -159,18 +160,18 @@ func main() {
 						if obj == nil {
 							continue
 						}
-						if isSyncType(obj.Type()) {
-							// a mutex / once / atomic is a synchronisation object: its operations are
-							// scheduling points of the shim, not data accesses
-							continue
-						}
 						vi := &varInfo{Name: id.Name, Pkg: pd.path, Type: obj.Type().String(), obj: obj, DeclFile: filepath.Base(fset.Position(id.Pos()).Filename)}
+						// a mutex / once / atomic / sync.Map is a synchronisation object: its operations are
+						// scheduling points of the shim, not data accesses (it is still reset and dumped)
+						vi.Sync = isSyncType(obj.Type())
 						if len(vs.Values) == len(vs.Names) {
 							vi.HasInit, vi.initExpr = true, vs.Values[i]
 						} else if len(vs.Values) == 1 {
 							vi.HasInit, vi.multiInit = true, true
 						}
-						vars[keyOf(obj)] = vi
+						if !vi.Sync {
+							vars[keyOf(obj)] = vi
+						}
 						rep.SharedVars = append(rep.SharedVars, vi)
 					}
 				}
